@@ -962,6 +962,37 @@ Row("Optimizer.add_clamp:second-clamp-on-vertex", "second-clamp",
     _gen_second_clamp, _side_second_clamp, _prep_second_clamp)
 
 
+def _gen_auto_second_clamp(rng, cls):
+    """3x3 mapped sketch (one interior point, node 4) in a random frame; the user clamps the interior or a boundary point first"""
+    o, e = rframe(rng)
+    pts = [at(o, e, i + rng.uniform(-0.1, 0.1), j + rng.uniform(-0.1, 0.1), 0.0) for j in range(3) for i in range(3)]
+    quads = [[0, 1, 4, 3], [1, 2, 5, 4], [3, 4, 7, 6], [4, 5, 8, 7]]
+    node = {"user-clamp-on-the-interior-point": 4, "user-clamp-on-a-boundary-point": rng.choice([1, 3, 5, 7]), "no-user-clamp": None}[cls]
+    return {"points": pts, "quads": quads, "node": node}
+
+
+def _prep_auto_second_clamp(cb, p):
+    import contextlib
+    import io
+
+    sketch = cb.MappedSketch(p["points"], p["quads"])
+    opt = cb.SketchOptimizer(sketch, report=False)
+    if p["node"] is not None:
+        a, b = p["points"][p["node"]], p["points"][(p["node"] + 1) % 9]
+        opt.add_clamp(cb.LineClamp(a, a, b))
+
+    def call():
+        with contextlib.redirect_stdout(io.StringIO()):
+            opt.auto_optimize(max_iterations=1)
+
+    return call
+
+
+Row("SketchOptimizer.auto_optimize:second-clamp-on-vertex", "second-clamp",
+    {"user-clamp-on-the-interior-point": "reject", "user-clamp-on-a-boundary-point": "accept", "no-user-clamp": "accept"},
+    _gen_auto_second_clamp, lambda p: "reject" if p["node"] == 4 else "accept", _prep_auto_second_clamp, weight=0.5)
+
+
 def _gen_link(rng, cls):
     spec = mesh_spec(rng)
     nodes = mesh_nodes(spec)
